@@ -342,6 +342,21 @@ func e2eRefusals(c *e2eCtx) error {
 			return true
 		}, false, true},
 		{"valid-track", []string{"track"}, func(s *scenario, r *rand.Rand) bool { return true }, false, true},
+		{"valid-track-package-path-through-a-regular-file", []string{"track"}, func(s *scenario, r *rand.Rand) bool {
+			// the tracking package directory cannot be created (a path segment is a committed regular
+			// file): the command fails at its very first write, with nothing touched
+			if os.WriteFile(filepath.Join(s.dir, "LICENSE"), []byte("MIT\n"), 0o644) != nil {
+				return false
+			}
+			if _, err := proj.Git(s.dir, 1700000200, "add", "LICENSE"); err != nil {
+				return false
+			}
+			if _, err := proj.Git(s.dir, 1700000200, "commit", "-q", "-m", "license"); err != nil {
+				return false
+			}
+			writeCfg(s, func(c *proj.Config) { c.PkgPath = "LICENSE/goat"; c.New = "HEAD" })
+			return true
+		}, false, true},
 		{"valid-track-alias-equals-an-imported-package-name", []string{"track"}, func(s *scenario, r *rand.Rand) bool {
 			// the alias of the tracking package is the name under which a main package already imports
 			// a library; one more commit changes only that library, so the main file itself has no
